@@ -50,6 +50,11 @@ func parseSDL(root *Root, reader io.Reader) (types []Type, extends []*Extend, er
 		if err == nil {
 			token, err = p.readToken()
 		}
+		if err == nil && len(token) == 0 && p.onDeck != 0 {
+			// The next byte can not start a definition and reading a token
+			// does not consume it, without an error this loops forever.
+			err = fmt.Errorf("%w, unexpected character '%c' at %d:%d", ErrParse, p.onDeck, p.line, p.col)
+		}
 		if err == nil && 0 < len(token) {
 			switch token {
 			case directiveStr:
